@@ -52,14 +52,14 @@ def gen_corpus(rnd):
         docs.append({"t": [rnd.choice(vocab) for _ in range(rnd.randint(1, 6))], "n": rnd.choice([-3, -1, 0, 1, 2, 5, 9, 100, 127, -128])})
     cuts = sorted(set(rnd.sample(range(1, n), rnd.choice([0, 0, 1, 2])))) if n > 2 else []
     deleted = sorted(rnd.sample(range(n), rnd.choice([0, 0, 1]))) if n > 2 else []
-    return {"docs": docs, "cuts": cuts, "deleted": deleted, "vocab": vocab}
+    return {"docs": docs, "cuts": cuts, "deleted": deleted, "vocab": vocab, "blocklimit": rnd.choice([1, 2, 3, 128])}
 
 
 def build(corpus):
     from whoosh import fields
     from whoosh.analysis import SpaceSeparatedTokenizer
     from whoosh.filedb.filestore import RamStorage
-    schema = fields.Schema(k=fields.ID(stored=True), t=fields.TEXT(analyzer=SpaceSeparatedTokenizer(), phrase=True),
+    schema = fields.Schema(k=fields.ID(stored=True, sortable=True), t=fields.TEXT(analyzer=SpaceSeparatedTokenizer(), phrase=True),
                            n=fields.NUMERIC(int, 8, signed=True, shift_step=2))
     ix = RamStorage().create_index(schema)
     docs = corpus["docs"]
@@ -67,7 +67,9 @@ def build(corpus):
     for end in corpus["cuts"] + [len(docs)]:
         if end <= start:
             continue
-        w = ix.writer()
+        from whoosh.codec.whoosh3 import W3Codec
+        # posting blocks of 1-3 entries (per corpus) so that limited searches really skip blocks by quality
+        w = ix.writer(codec=W3Codec(blocklimit=corpus.get("blocklimit", 128)))
         for i in range(start, end):
             w.add_document(k=str(i), t=" ".join(docs[i]["t"]), n=docs[i]["n"])
         w.commit(merge=False)
@@ -158,6 +160,22 @@ def check_corpus(corpus, rnd, fails, counts):
                 else:
                     if got4 != len(exp):
                         fails.append({"case": "C01-len/%s" % kind, "detail": "%s: len(limit=1)=%d expected %d" % (name, got4, len(exp)), "corpus": corpus})
+                    # every access path and limit: hits are matching documents, as many as the limit allows, none twice
+                    for lim in (1, 2, 3):
+                        for path, kw in (("scored", {}), ("unscored", {"scored": False}), ("sorted", {"sortedby": "k"}),
+                                         ("terms", {"terms": True})):
+                            res = s.search(q, limit=lim, **kw)
+                            hits = [h.docnum for h in res]
+                            # (the unscored collector hands out more than `limit` hits; the property only fixes WHICH
+                            # documents may appear and the count len() reports)
+                            if any(d not in exp for d in hits) or len(set(hits)) != len(hits) or len(hits) < min(lim, len(exp)) \
+                                    or len(res) != len(exp):
+                                fails.append({"case": "C01-limit-%s/%s" % (path, kind), "detail": "%s: search(limit=%d, %s) -> %r but the matching documents are %r"
+                                              % (name, lim, path, hits, exp), "corpus": corpus})
+                                break
+                    un = sorted(h.docnum for h in s.search(q, limit=None, scored=False))
+                    if un != exp:
+                        fails.append({"case": "C01-unscored/%s" % kind, "detail": "%s: scored=False -> %r expected %r" % (name, un, exp), "corpus": corpus})
             except Exception as e:
                 fails.append({"case": "exception/%s" % kind, "detail": "%s: %s: %s | %s" % (name, type(e).__name__, e, traceback.format_exc()[-300:]), "corpus": corpus})
     counts["corpora"] += 1
@@ -183,6 +201,67 @@ def run(seeds):
     return fails, counts
 
 
+def check_big(fails):
+    """Deterministic larger corpora for code that only runs at scale: (1) phrase / span-near queries under a limit over
+    posting lists of many small blocks (after a quality skip the span condition must be re-checked); (2) an Or of three
+    and four terms over more than 2 x 2048 documents (the pre-scored union matcher works in 2048-document windows)."""
+    from whoosh import fields, query
+    from whoosh.analysis import SpaceSeparatedTokenizer
+    from whoosh.codec.whoosh3 import W3Codec
+    from whoosh.filedb.filestore import RamStorage
+    from whoosh.query import spans
+    n = 0
+    # ---- (1)
+    for blocklimit in (2, 8, 128):
+        ix = RamStorage().create_index(fields.Schema(k=fields.ID(stored=True), t=fields.TEXT(analyzer=SpaceSeparatedTokenizer())))
+        w = ix.writer(codec=W3Codec(blocklimit=blocklimit))
+        docs = []
+        for i in range(600):
+            if i < 40:
+                d = "alpha beta" + " pad" * (40 - i)
+            else:
+                fill = 30 if (i // (blocklimit if blocklimit > 2 else 7)) % 2 else 3
+                d = ("fill " * fill + "alpha beta") if i % 7 == 0 else ("alpha " + "fill " * fill + "beta")
+            docs.append(d.split())
+            w.add_document(k=str(i), t=d)
+        w.commit()
+        has_phrase = lambda toks: any(toks[j] == "alpha" and toks[j + 1] == "beta" for j in range(len(toks) - 1))
+        exp = sorted(i for i in range(600) if has_phrase(docs[i]))
+        with ix.searcher() as s:
+            for qname, q in (("phrase", query.Phrase("t", ["alpha", "beta"])),
+                             ("spannear", spans.SpanNear(query.Term("t", "alpha"), query.Term("t", "beta"), slop=1))):
+                for lim in (1, 3, 10, 30, 50, 60, 100):
+                    n += 1
+                    hits = [int(h["k"]) for h in s.search(q, limit=lim)]
+                    bad = [h for h in hits if h not in exp]
+                    if bad or len(hits) != min(lim, len(exp)):
+                        fails.append({"case": "C01-big-%s-limit" % qname, "detail": "%s 'alpha beta', posting blocks of %d, limit=%d: hits "
+                                      "%r contain documents without the phrase: %r" % (qname, blocklimit, lim, hits[:12], bad), "corpus": None})
+                        break
+    # ---- (2)
+    ix = RamStorage().create_index(fields.Schema(k=fields.ID(stored=True), t=fields.KEYWORD))
+    w = ix.writer()
+    words = ["apple", "banana", "cherry", "date"]
+    has = {}
+    for i in range(4300):
+        ws = [wd for j, wd in enumerate(words) if (i % (577 + 131 * j) in (3, 7, 11)) or (i > 4250 and (i + j) % 9 == 0)]
+        has[i] = set(ws)
+        w.add_document(k=str(i), t=" ".join(ws) if ws else "other")
+    w.commit()
+    with ix.searcher() as s:
+        for k in (3, 4):
+            n += 1
+            q = query.Or([query.Term("t", wd) for wd in words[:k]])
+            exp = sorted(i for i in range(4300) if has[i] & set(words[:k]))
+            for path, kw in (("scored", {}), ("unscored", {"scored": False}), ("sorted", {"sortedby": "k"})):
+                got = sorted(int(h["k"]) for h in s.search(q, limit=None, **kw))
+                if got != exp:
+                    fails.append({"case": "C01-big-or%d-%s" % (k, path), "detail": "Or of %d terms over 4300 documents (%s): %d hits, expected %d; "
+                                  "unexpected %r missing %r" % (k, path, len(got), len(exp), sorted(set(got) - set(exp))[:8],
+                                                               sorted(set(exp) - set(got))[:8]), "corpus": None})
+    return n
+
+
 def main():
     if sys.argv[1] == "--corpus":
         corpus = json.loads(sys.argv[2])
@@ -201,6 +280,15 @@ def main():
     with multiprocessing.get_context("fork").Pool(jobs) as pool:
         outs = pool.map(run, [seeds[i::jobs] for i in range(jobs)])
     fails = [f for fs, _ in outs for f in fs]
+    tmp = tempfile.mkdtemp(prefix="qb_")
+    os.environ["TMPDIR"] = tmp
+    tempfile.tempdir = tmp
+    try:
+        check_big(fails)
+    except Exception as e:
+        fails.append({"case": "exception/big", "detail": "%s: %s | %s" % (type(e).__name__, e, traceback.format_exc()[-400:]), "corpus": None})
+    import shutil
+    shutil.rmtree(tmp, ignore_errors=True)
     seen, uniq = set(), []
     for f in fails:
         if f["case"] not in seen:
